@@ -1,17 +1,90 @@
 (* C16 - Path helpers accept exactly the safe names and never climb above root.
-   Only statements, each closed by [exact lemma], with Print Assumptions. *)
+   Statements only; proofs in Proofs/PathProofs.v, PathWalk.v (on the path.Clean/Join lemmas of
+   PathExtra.v and UfsProofsMirror.v).  Directories in canonical internal form are [render q] with
+   every component of q good (non-empty, not "." or "..", no '/' and no '\'). *)
 From Coq Require Import List NArith ZArith Bool.
-From P9 Require Import Base.Res Model.Path Proofs.PathProofs.
+From P9 Require Import Base.Res Model.Path Model.Ufs Proofs.PathProofs Proofs.UfsProofsPath Proofs.UfsProofsMirror Proofs.PathWalk.
 Import ListNotations.
 
-(* validation accepts exactly the lists whose elements are safe and contain '..' only as a leading run;
-   the value is the length of that run, and every other list yields -1 *)
+(* 1. Validation accepts exactly the lists whose elements contain no separator, are neither empty nor
+      '.', and contain '..' only as a leading run; its value is the length of that run, else -1. *)
 Theorem C16_valid_iff : forall ns k,
   valid_path ns = Z.of_nat k <-> exists rest, ns = repeat DOTDOT k ++ rest /\ Forall ordinary rest.
 Proof. exact valid_path_iff. Qed.
 Print Assumptions C16_valid_iff.
 
-Theorem C16_valid_else_minus1 : forall ns,
-  valid_path ns = (-1)%Z \/ (0 <= valid_path ns)%Z.
+Theorem C16_valid_else_minus1 : forall ns, valid_path ns = (-1)%Z \/ (0 <= valid_path ns)%Z.
 Proof. exact valid_path_range. Qed.
 Print Assumptions C16_valid_else_minus1.
+
+Theorem C16_accepted_names : forall ns, names_okb true ns = true <->
+  exists k rest, ns = repeat DOTDOT k ++ rest /\ Forall ordinary rest.
+Proof. exact names_okb_iff. Qed.
+Print Assumptions C16_accepted_names.
+
+(* 2. WalkName from a canonical directory: for accepted names it IS stepwise resolution
+      ([resolve_names]: '..' pops a component, a name pushes one), also for the empty list, and
+      the result is again canonical; it is rejected exactly when resolution would climb above
+      the root, i.e. when the leading run of '..' is longer than the directory is deep;
+      names that are not accepted are rejected. *)
+Theorem C16_walk : forall q ns, Forall good q -> names_okb true ns = true ->
+  walk_name (render q) ns = map_res render (resolve_names q ns) /\
+  (forall q', resolve_names q ns = Ok q' -> Forall good q').
+Proof. exact walk_name_is_resolution. Qed.
+Print Assumptions C16_walk.
+
+Theorem C16_walk_climb : forall q k rest, forallb goodb rest = true ->
+  resolve_names q (repeat DOTDOT k ++ rest) =
+    if Nat.leb k (length q) then Ok (firstn (length q - k) q ++ rest) else Err [].
+Proof. exact resolve_climbs. Qed.
+Print Assumptions C16_walk_climb.
+
+Theorem C16_walk_rejects : forall q ns, names_okb true ns = false -> walk_name (render q) ns = Err [].
+Proof. exact walk_name_rejects. Qed.
+Print Assumptions C16_walk_rejects.
+
+(* 3. CreateName accepts exactly the safe names other than '..' and yields dir/name. *)
+Theorem C16_create : forall q n, Forall good q ->
+  create_name (render q) n = (if goodb n then Ok (render (q ++ [n])) else Err []).
+Proof. exact create_name_resolve. Qed.
+Print Assumptions C16_create.
+
+(* 4. NormalizePath: an error exactly when some element has a separator; otherwise the result is k
+      leading '..' followed by ordinary names, resolving it stepwise from any directory equals
+      resolving the original list leniently ('' and '.' skipped), and normalising again changes
+      nothing (idempotence) while validation of the result returns the same k. *)
+Theorem C16_normalize : forall ns,
+  match normalize_go ns [] 0 with
+  | None => existsb has_sep ns = true /\ normalize_path ns = ([], (-1)%Z)
+  | Some (ms, k) =>
+      normalize_path ns = (ms, k) /\ existsb has_sep ns = false /\ (0 <= k)%Z /\
+      (exists ord, ms = repeat DOTDOT (Z.to_nat k) ++ ord /\ Forall ordinary ord) /\
+      (forall q, resolve_names q ms = resolve_len q ns)
+  end.
+Proof. exact normalize_spec. Qed.
+Print Assumptions C16_normalize.
+
+Theorem C16_normalize_idempotent : forall ns ms k, normalize_path ns = (ms, k) -> (0 <= k)%Z ->
+  normalize_path ms = (ms, k) /\ valid_path ms = k.
+Proof. exact normalize_idempotent. Qed.
+Print Assumptions C16_normalize_idempotent.
+
+(* 5. ToWalk returns valid steps (none climbing for an absolute path) that resolve like the path. *)
+Theorem C16_towalk : forall p isabs steps, to_walk p = (isabs, Ok steps) ->
+  (0 <= valid_path steps)%Z /\ (isabs = true -> valid_path steps = 0%Z) /\
+  (forall q, resolve_names q steps = resolve_len q (split_slash (trim_slash p))).
+Proof. exact to_walk_valid. Qed.
+Print Assumptions C16_towalk.
+
+(* non-vacuity *)
+Example C16_walk_example :
+  let a := [97%N] in let b := [98%N] in
+  Forall good [a; b] /\ names_okb true [DOTDOT; a] = true /\
+  walk_name (render [a; b]) [DOTDOT; a] = Ok (render [a; a]) /\
+  walk_name (render [a]) [DOTDOT; DOTDOT] = Err [] /\
+  normalize_path [a; [46%N]; DOTDOT; DOTDOT; b; []] = ([DOTDOT; b], 1%Z).
+Proof.
+  cbv zeta. repeat split; try (vm_compute; reflexivity).
+  repeat constructor; try (intros H; discriminate H); try (intros [H|H]; [discriminate H|destruct H]).
+Qed.
+Print Assumptions C16_walk_example.
